@@ -39,7 +39,7 @@ LEVEL_TEXT = ("For each generated transform the complete single-failure space "
 LEVEL_NOTE = ("Exhaustive per transform, sampled over transforms; double "
               "faults and failures inside rollback are outside the property.")
 REGISTERED = True
-NONTRIVIAL_FLOOR = {"quick": 400, "thorough": 10000}
+NONTRIVIAL_FLOOR = {"quick": 1200, "thorough": 10000}
 
 SIG_F8 = "C13/deletion-failure-before-inventory-update"
 SIG_F19 = "C13/exec-bit-not-rolled-back"
@@ -280,5 +280,5 @@ def gen_case(draw):
 def kinds(tier):
     return [
         Kind("fault-blocks", run_block, strategy=gen_case(),
-             examples={"quick": 120, "thorough": 3000}),
+             examples={"quick": 360, "thorough": 3000}),
     ]
